@@ -48,6 +48,8 @@ def prebuild(ctx):
 
 HARNESSES = [
     dict(name="parsers", src=["c04.c"], variant="asan", prebuild=prebuild, deadline={"quick": 900, "thorough": 5400}),
+    # free-running ThreadSanitizer twin: two threads, each with objects of its own (harness/common/twin.c; samples, decides nothing)
+    dict(name="own-objects-tsan", src=["../common/twin.c"], variant="tsan", cflags=["-DTWIN_C04", "-DVSX_FREE_RUNS=6"], deadline={"quick": 60, "thorough": 120}),
 ]
 ASSUMPTIONS = [
     "bounds: string lengths and template edit depths as listed in the rule; inputs longer than these are not enumerated "
